@@ -177,6 +177,7 @@ func init() {
 			}
 			return done(konst(n))
 		},
+		"Jitter": func(e *Exec, fr *Frame, fn *ssa.Function, a []Value) (Value, int) { return done(nil) },
 		"Yield": func(e *Exec, fr *Frame, fn *ssa.Function, a []Value) (Value, int) {
 			// let every other runnable goroutine run until it blocks
 			g := e.cur
